@@ -39,6 +39,63 @@ impl Bucket {
     }
 }
 
+/// (c) On the real receive path (wire rig): a sender that exceeds its quota is banned, and the ban
+/// is still in force after the handler's periodic purge of the ban list has run - as long as the
+/// configured duration has not passed on the clock the ban is measured with (the wall clock; the
+/// purge runs on the rig's virtual clock, so hundreds of purge periods pass within milliseconds).
+pub fn scenario_ban_purge(seed: u64, rep: &mut Report) {
+    use crate::rig::r1::{runtime, v4, RigConfig, WireRig};
+    let rt = runtime(seed);
+    rt.block_on(async {
+        let mut rng = Rng::new(seed ^ 0xBA2);
+        let hour = Duration::from_secs(3600);
+        let ban = Duration::from_secs(*rng.pick(&[20u64, 120, 299, 301, 600, 3600]));
+        let per_ip = rng.bool();
+        let limiter = if per_ip {
+            RateLimiterBuilder::new().total_n_every(1000, hour).ip_n_every(2, hour).node_n_every(1000, hour).build()
+        } else {
+            RateLimiterBuilder::new().total_n_every(1000, hour).ip_n_every(1000, hour).node_n_every(2, hour).build()
+        };
+        let cfg = RigConfig { packet_filter: true, rate_limiter: Some(limiter.expect("quota")), ban_duration: Some(Some(ban)), ..Default::default() };
+        let rig = WireRig::start(&mut rng, cfg).await;
+        let vid = rig.victim_id();
+        rep.evaluations += 1;
+        rep.count("ban_purge_scenarios");
+        let from = v4(10, 4, 4, 1 + rng.below(200) as u8, 9400);
+        let src: [u8; 32] = rng.array();
+        // readable message packets of one unknown sender: each counts against its IP and its node id
+        for _ in 0..(3 + rng.usize(3)) {
+            let n = 20 + rng.usize(30);
+            let p = crate::peer::codec_ref::RawPacket::new(rng.array(), crate::peer::codec_ref::FLAG_MESSAGE, rng.array(), crate::peer::codec_ref::authdata_message(&src), rng.bytes(n));
+            rig.inject(from, p.encode(&vid));
+            rig.settle().await;
+        }
+        let t_ban = Instant::now();
+        let listed = |l: &PermitBanList| if per_ip { l.ban_ips.get(&from.ip()).copied() } else { l.ban_nodes.get(&NodeId::new(&src)).copied() };
+        let Some(until) = listed(&ban_list_snapshot()) else {
+            rep.violation("C18:excess-not-banned", format!("a sender exceeded its {} quota of 2 per hour and is not on the ban list", if per_ip { "per-IP" } else { "per-node" }), json!({"scenario_seed": seed.to_string(), "kind": "ban-purge", "per_ip": per_ip}));
+            return;
+        };
+        if let Some(until) = until {
+            if until + Duration::from_millis(50) < t_ban + ban {
+                rep.violation("C18:ban-shorter-than-configured", format!("the ban entry runs out {:?} after the ban, configured {ban:?}", until.saturating_duration_since(t_ban)), json!({"scenario_seed": seed.to_string(), "kind": "ban-purge", "per_ip": per_ip}));
+            }
+        }
+        // the periodic purge runs (every 300 s of the rig's clock), once or several times
+        let periods = 1 + rng.below(4);
+        rig.sleep(Duration::from_secs(300 * periods + rng.below(200))).await;
+        rig.settle().await;
+        let elapsed = t_ban.elapsed();
+        rep.count("ban_purges_observed");
+        rep.fingerprint(&("ban-purge", per_ip, ban.as_secs(), periods));
+        if elapsed < ban && listed(&ban_list_snapshot()).is_none() {
+            rep.violation("C18:ban-lifted-before-duration", format!("a ban of {ban:?} was lifted {elapsed:?} after it was imposed (by the periodic purge of the ban list)"), json!({"scenario_seed": seed.to_string(), "kind": "ban-purge", "per_ip": per_ip, "ban_s": ban.as_secs()}));
+        }
+        let _ = rig.take_events();
+        let _ = rig.take_sent();
+    });
+}
+
 fn limiter_scenario(seed: u64, rep: &mut Report) {
     let mut rng = Rng::new(seed);
     let burst = match rng.below(4) {
@@ -75,6 +132,8 @@ fn limiter_scenario(seed: u64, rep: &mut Report) {
     let mut refusals = 0u64;
     let mut boundary = 0u64;
     let mut prunes = 0u64;
+    let mut floods = 0u64;
+    let crowd: u32 = if rng.chance(1, 8) { *rng.pick(&[50u32, 3000, 9000, 20000, 70000]) } else { 0 };
     for _ in 0..n {
         // inter-arrival: burst (0), exact token boundary, boundary +- 1ns, long gap, random
         let gap = match rng.below(8) {
@@ -96,6 +155,18 @@ fn limiter_scenario(seed: u64, rep: &mut Report) {
         };
         now += gap;
         let key = rng.below(nkeys as u64) as u32;
+        if crowd > 0 && rng.chance(1, 40) {
+            // a flood from many other senders (one packet each) fills the limiter's table; the
+            // twin is pruned right after it
+            for k in 0..crowd {
+                let other = 1000 + k;
+                lim.allows(Duration::from_nanos(now), &other, 1);
+                twin.allows(Duration::from_nanos(now), &other, 1);
+            }
+            twin.prune(Duration::from_nanos(now));
+            prunes += 1;
+            floods += 1;
+        }
         if rng.chance(1, 6) {
             // prune the twin at an arbitrary instant not after `now`
             twin.prune(Duration::from_nanos(now - rng.below(gap + 1)));
@@ -151,6 +222,7 @@ fn limiter_scenario(seed: u64, rep: &mut Report) {
     rep.count_n("limiter_refusals", refusals);
     rep.count_n("boundary_spaced_arrivals", boundary);
     rep.count_n("prune_calls", prunes);
+    rep.count_n("floods_of_other_senders", floods);
     if exact {
         rep.count("limiter_exact_quota_scenarios");
     }
@@ -365,6 +437,8 @@ pub fn run(p: &Params) -> Report {
         let seed: u64 = r["replay"]["scenario_seed"].as_str().unwrap().parse().unwrap();
         if r["replay"]["kind"] == "wire" {
             wire_scenario(seed, &mut rep);
+        } else if r["replay"]["kind"] == "ban-purge" {
+            scenario_ban_purge(seed, &mut rep);
         } else if r["replay"]["enabled"].is_null() {
             limiter_scenario(seed, &mut rep);
         } else {
@@ -376,6 +450,10 @@ pub fn run(p: &Params) -> Report {
     for i in 0..m {
         let seed = p.shard_seed(0x18F_000 + i);
         crate::util::guarded(&mut rep, seed, |rep| wire_scenario(seed, rep));
+        if i % 4 == 0 {
+            let seed = p.shard_seed(0xBA2_000 + i);
+            crate::util::guarded(&mut rep, seed, |rep| scenario_ban_purge(seed, rep));
+        }
     }
     let n = p.budget(80_000, 8_000_000);
     for i in 0..n {
